@@ -240,6 +240,10 @@ func runChanDisc(c *core.Ctx) {
 					c.OK(props, fname(c, fn), k, pos, "DR3: "+why)
 					continue
 				}
+				if ok, why := borrowOp(c, fn); ok {
+					c.OK(props, fname(c, fn), k, pos, "DR3: "+why)
+					continue
+				}
 				c.Bad(props, fname(c, fn), k, pos, "bare send on "+an.PathOf(op.Chan)+": not in a select with <-ctx.Done(), not into a locally made buffer, not a token release — blocks forever when the receiver is gone")
 			case an.OpRecv:
 				k := key("recv", shortChan(op.Chan))
@@ -259,6 +263,10 @@ func runChanDisc(c *core.Ctx) {
 					continue
 				}
 				if ok, why := tokenAcquire(fn, op); ok {
+					c.OK(props, fname(c, fn), k, pos, "DR3: "+why)
+					continue
+				}
+				if ok, why := borrowOp(c, fn); ok {
 					c.OK(props, fname(c, fn), k, pos, "DR3: "+why)
 					continue
 				}
@@ -334,6 +342,134 @@ func tokenAcquire(fn *ssa.Function, op an.ChanOp) (bool, string) {
 	return true, "token acquired from " + chPath + " and released by a deferred send of the same value"
 }
 
+// borrowHelper: DR3 spelled as a helper —
+//
+//	func borrow(ch chan T) (T, func()) { v := <-ch; return v, func() { ch <- v } }
+//
+// g's only channel operation is a receive from a parameter; it returns the
+// received value and a closure whose only channel operation puts that value
+// back on the same channel. Returns the receive and the parameter's index.
+func borrowHelper(g *ssa.Function) (*ssa.UnOp, int, bool) {
+	if g == nil || len(g.Blocks) == 0 || g.Signature.Results().Len() != 2 || len(an.ReturnBlocks(g)) != 1 {
+		return nil, 0, false
+	}
+	var recv *ssa.UnOp
+	other := 0
+	an.Instrs(g, func(in ssa.Instruction) {
+		switch x := in.(type) {
+		case *ssa.UnOp:
+			if x.Op == token.ARROW {
+				if recv != nil {
+					other++
+				}
+				recv = x
+			}
+		case *ssa.Send, *ssa.Select, *ssa.Go:
+			other++
+		}
+	})
+	if recv == nil || other > 0 {
+		return nil, 0, false
+	}
+	par, ok := an.LoadedValue(recv.X).(*ssa.Parameter)
+	if !ok {
+		return nil, 0, false
+	}
+	idx := -1
+	for i, p := range g.Params {
+		if p == par {
+			idx = i
+		}
+	}
+	rv := an.ReturnValues(an.LastInstr(an.ReturnBlocks(g)[0]).(*ssa.Return))
+	if idx < 0 || an.LoadedValue(rv[0]) != ssa.Value(recv) {
+		return nil, 0, false
+	}
+	mc, ok := rv[1].(*ssa.MakeClosure)
+	if !ok {
+		return nil, 0, false
+	}
+	cl := mc.Fn.(*ssa.Function)
+	sends := 0
+	good := false
+	an.Instrs(cl, func(in ssa.Instruction) {
+		switch x := in.(type) {
+		case *ssa.Send:
+			sends++
+			good = an.LoadedValue(resolveFree(x.Chan)) == ssa.Value(par) && an.LoadedValue(resolveFree(x.X)) == ssa.Value(recv)
+		case *ssa.Select, *ssa.Go:
+			sends += 2
+		case *ssa.UnOp:
+			if x.Op == token.ARROW {
+				sends += 2
+			}
+		}
+	})
+	if sends != 1 || !good {
+		return nil, 0, false
+	}
+	return recv, idx, true
+}
+
+// borrowCall: call is `v, release := borrow(x.tok)`; returns the channel argument.
+func borrowCall(call *ssa.Call) (ssa.Value, bool) {
+	g := an.StaticCallee(&call.Call)
+	if g == nil || !an.InModuleFn(g) {
+		return nil, false
+	}
+	_, idx, ok := borrowHelper(g)
+	if !ok || idx >= len(call.Call.Args) {
+		return nil, false
+	}
+	return call.Call.Args[idx], true
+}
+
+// borrowOp: the receive inside a borrow helper / the send inside its release
+// closure are token operations if every caller hands in a 1-slot token channel
+// and defers the release straight away.
+func borrowOp(c *core.Ctx, fn *ssa.Function) (bool, string) {
+	g := fn
+	if g.Parent() != nil {
+		g = g.Parent()
+	}
+	if _, _, ok := borrowHelper(g); !ok {
+		return false, ""
+	}
+	sites := 0
+	for _, caller := range libFuncs(c) {
+		for _, ci := range calls(caller) {
+			sc := an.StaticCallee(ci.Common())
+			if sc == nil || (sc != g && sc.Origin() != g && (g.Origin() == nil || sc.Origin() != g.Origin())) {
+				continue
+			}
+			call, isCall := ci.(*ssa.Call)
+			if !isCall {
+				return false, ""
+			}
+			ch, ok := borrowCall(call)
+			if !ok || !tokenChannel(caller, ch) {
+				return false, ""
+			}
+			released := false
+			an.Instrs(caller, func(in ssa.Instruction) {
+				if d, isDefer := in.(*ssa.Defer); isDefer {
+					if ex, isEx := d.Call.Value.(*ssa.Extract); isEx && ex.Tuple == ssa.Value(call) && ex.Index == 1 && an.InstrDominates(call, d) {
+						released = true
+					}
+				}
+			})
+			if !released {
+				return false, ""
+			}
+			sites++
+		}
+	}
+	if sites == 0 {
+		return false, ""
+	}
+	return true, fmt.Sprintf("token borrow helper: each of its %d callers passes a 1-slot token channel and defers the returned release", sites)
+}
+
 // resolveFree: follow a free variable to its binding.
 func resolveFree(v ssa.Value) ssa.Value {
 	for i := 0; i < 6; i++ {
@@ -347,7 +483,7 @@ func resolveFree(v ssa.Value) ssa.Value {
 		case *ssa.UnOp:
 			if x.Op == token.MUL {
 				if a := an.ResolveAlloc(x.X); a != nil {
-					if st := an.StoresTo(a); len(st) == 1 {
+					if st := an.EffectiveStores(a); len(st) == 1 {
 						v = st[0].Val
 						continue
 					}
